@@ -116,14 +116,21 @@ fn check_esh(report: &mut Report, pname: &str, c: &EshCall, d: u64, replay: &J) 
         let zeta = (-(c.step * gn / (c.grad.len() as f64 - 1.0))).exp();
         let cg = (1.0 - zeta) * (1.0 + zeta + alpha * (1.0 - zeta));
         let raw: Vec<f64> = c.mom_in.iter().zip(&c.grad).map(|(p, g)| cg * g / gn + 2.0 * zeta * p).collect();
-        (1.0 + cg.abs() + 2.0 * zeta) / norm(&raw).max(1e-300)
+        (1.0 + cg.abs() + 2.0 * zeta + (1.0 - zeta) * (1.0 - zeta)) / norm(&raw).max(1e-300)
     };
     let tol = 1e-12 * (1.0 + delta) + 256.0 * f64::EPSILON * amplification;
     if !(err <= tol) {
         report.violation(sig("esh_update_differs_from_closed_form"), format!("draw {d}: max component error {err:e} (delta {delta}, amplification {amplification:e}, tolerance {tol:e})"), replay.clone());
         return false;
     }
-    let tol_ke = 1e-11 * (1.0 + dke.abs() + delta * (c.grad.len() as f64));
+    // ln(1 + alpha + (1 - alpha) zeta^2) loses digits when alpha is close to -1 (the same cancellation as above)
+    let ke_amplification = {
+        let gn = norm(&c.grad);
+        let alpha: f64 = c.mom_in.iter().zip(&c.grad).map(|(p, g)| p * g / gn).sum();
+        let zeta = (-delta).exp();
+        (1.0 + alpha.abs()) / (1.0 + alpha + (1.0 - alpha) * zeta * zeta).abs().max(1e-300)
+    };
+    let tol_ke = 1e-11 * (1.0 + dke.abs() + delta * (c.grad.len() as f64)) + 256.0 * f64::EPSILON * ke_amplification * (c.grad.len() as f64);
     if !((c.delta_ke - dke).abs() <= tol_ke) {
         report.violation(sig("esh_kinetic_energy_change"), format!("draw {d}: reported {} closed form {dke}", c.delta_ke), replay.clone());
         return false;
